@@ -340,6 +340,8 @@ func (r *runner) doOp(op string, t int, arg int, who string) {
 		tk.StartASAP()
 	case "s":
 		tk.Schedule(time.Now().Add(time.Duration(arg) * time.Millisecond))
+	case "S": // absolute: offset from scenario start (lets several tasks share one executeAt)
+		tk.Schedule(r.start.Add(time.Duration(arg) * time.Millisecond))
 	case "z":
 		tk.Schedule(time.Time{})
 	case "d":
